@@ -35,7 +35,7 @@ ASSUMPTIONS = [
     "libc's tz database is the authority for the offset in force at an instant",
 ]
 BUDGET = {"quick": (300, 4), "thorough": (200000, 16)}
-REQUIRED = ["now_dst/file_std", "now_std/file_dst", "now_dst/file_dst", "now_std/file_std", "size0", "fixed_offset", "iana", "big_file", "near_switch", "within_hour_after_switch"]
+REQUIRED = ["now_dst/file_std", "now_std/file_dst", "now_dst/file_dst", "now_std/file_std", "size0", "fixed_offset", "iana", "big_file", "near_switch", "within_hour_after_switch", "now_in_repeated_hour", "flatten_other_zone"]
 
 IANA = ["Europe/Berlin", "America/New_York", "America/Los_Angeles", "Australia/Sydney", "Pacific/Auckland", "America/Sao_Paulo",
         "Asia/Kolkata", "Asia/Kathmandu", "Pacific/Kiritimati", "Etc/GMT+12", "Europe/London", "Africa/Cairo", "America/St_Johns",
@@ -57,6 +57,11 @@ def _tz(draw):
         return {"kind": "fixed", "tz": "%s%s%d:%02d" % (name, sign, a // 60, a % 60)}
     if k in (3, 4, 5):
         return {"kind": "iana", "tz": draw(st.sampled_from(IANA))}
+    if k == 9 or k == 8:
+        # a DST rule whose switch happened `ago` seconds before the command runs: after a fall-back 'now' then lies in
+        # the second pass of the repeated hour, after a spring-forward just behind the gap
+        return {"kind": "custom_now", "std_minutes": draw(st.sampled_from([-300, 0, 60, 330])), "ago": draw(st.sampled_from([5, 600, 1800, 3500])),
+                "which": draw(st.sampled_from(["fall_back", "fall_back", "spring_forward"]))}
     # custom rule relative to now; resolved at run time
     return {"kind": "custom", "std_minutes": draw(st.sampled_from([-480, -300, 0, 60, 330, 600])), "now_in_dst": draw(st.booleans()),
             "half": draw(st.integers(20, 150))}
@@ -87,7 +92,8 @@ def _scn(draw):
             unique_by=lambda f: f["name"],
         )
     )
-    return {"tz": draw(_tz()), "files": files, "formats": draw(gen.formats(2)), "sub": draw(st.booleans())}
+    return {"tz": draw(_tz()), "files": files, "formats": draw(gen.formats(2)), "sub": draw(st.booleans()),
+            "flatten_tz": draw(st.sampled_from([None, None, "UTC", "Europe/Berlin", "America/Los_Angeles", "Asia/Kolkata", "Australia/Sydney", "<-0330>3:30"]))}
 
 
 def strategy(tier):
@@ -162,6 +168,34 @@ def _switches(year):
     return out
 
 
+def _posix_now(spec, now):
+    """POSIX TZ string whose DST end (or start) lies `ago` seconds before now, to the second; None if the wall-clock
+    arithmetic would cross a day boundary (then the case is skipped and counted)"""
+    m = spec["std_minutes"]
+    switch = now - spec["ago"]
+    # wall clock shown just before the switch: DST time for a fall-back, standard time for a spring-forward
+    wall_off = (m + 60) * 60 if spec["which"] == "fall_back" else m * 60
+    wt = time.gmtime(switch + wall_off)
+    day = wt.tm_yday
+    leap = wt.tm_year % 4 == 0 and (wt.tm_year % 100 != 0 or wt.tm_year % 400 == 0)
+    if leap and day > 59:
+        day -= 1
+    if leap and wt.tm_yday == 60:
+        return None
+    day = max(1, min(365, day))
+    other = (day + 150 - 1) % 365 + 1
+    hms = "%d:%02d:%02d" % (wt.tm_hour, wt.tm_min, wt.tm_sec)
+
+    def off(minutes):
+        sign = "-" if minutes >= 0 else ""
+        a = abs(minutes)
+        return "%s%d:%02d" % (sign, a // 60, a % 60)
+
+    if spec["which"] == "fall_back":
+        return "AAA%sBBB%s,J%d/0,J%d/%s" % (off(m), off(m + 60), other, day, hms)
+    return "AAA%sBBB%s,J%d/%s,J%d/0" % (off(m), off(m + 60), day, hms, other)
+
+
 def _parse(s):
     return datetime.datetime.fromisoformat(s.replace("Z", "+00:00"))
 
@@ -169,7 +203,13 @@ def _parse(s):
 def run_case(scn, ctx):
     now = time.time()
     tzspec = scn["tz"]
-    tz = tzspec["tz"] if tzspec["kind"] != "custom" else _posix_custom(tzspec, now)
+    if tzspec["kind"] == "custom_now":
+        tz = _posix_now(tzspec, int(now))
+        if tz is None:
+            ctx.event("custom_now_skipped")
+            return None
+    else:
+        tz = tzspec["tz"] if tzspec["kind"] != "custom" else _posix_custom(tzspec, now)
     old = os.environ.get("TZ")
     with World("c16") as w:
         try:
@@ -194,6 +234,12 @@ def run_case(scn, ctx):
                 dt = scn["files"][0]["mtime"]
                 os.utime(w.abs("R/sub"), (dt, dt))
                 mt["R/sub"] = dt
+            if tzspec["kind"] == "custom_now":
+                a, b = time.localtime(now - tzspec["ago"] - 2), time.localtime(now)
+                if a.tm_gmtoff == b.tm_gmtoff:
+                    ctx.event("custom_now_rule_not_effective")
+                elif tzspec["which"] == "fall_back":
+                    ctx.event("now_in_repeated_hour")
             t0 = time.time()
             res = w.create("R", scn["formats"])
             t1 = time.time()
@@ -202,6 +248,8 @@ def run_case(scn, ctx):
 
             def gmtoff(ts):
                 return time.localtime(ts).tm_gmtoff
+
+            cur = {"name": tz, "iana": tzspec["kind"] == "iana"}
 
             def check_date(text, what, lo, hi, exact=None):
                 require(text is not None and DT_RE.match(text) is not None, "lexical", "%s %r is not an xs:dateTime with explicit offset" % (what, text), res)
@@ -212,13 +260,13 @@ def run_case(scn, ctx):
                 else:
                     require(lo <= ts <= hi, "instant", "%s %r denotes %s, outside the command window [%s, %s] (TZ=%s)" % (what, text, ts, lo, hi, tz), res)
                 want = gmtoff(ts)
-                if tzspec["kind"] == "iana":
-                    zi = datetime.datetime.fromtimestamp(ts, zoneinfo.ZoneInfo(tz)).utcoffset().total_seconds()
+                if cur["iana"]:
+                    zi = datetime.datetime.fromtimestamp(ts, zoneinfo.ZoneInfo(cur["name"])).utcoffset().total_seconds()
                     if zi != want:
                         ctx.event("oracles_disagree")
                         return
                 got = d.utcoffset().total_seconds()
-                require(got == want, "offset", "%s %r carries offset %+d s, zone %s had %+d s at that instant" % (what, text, got, tz, want), res)
+                require(got == want, "offset", "%s %r carries offset %+d s, zone %s had %+d s at that instant" % (what, text, got, cur["name"], want), res)
 
             check_date(doc["creatorinfo"].get("creationdate"), "creationdate", int(t0), t1)
             recs = {r["path"]: r for r in doc["records"]}
@@ -239,6 +287,42 @@ def run_case(scn, ctx):
                 r = recs.get("sub")
                 require(r is not None, "record", "no record for directory 'sub'", res)
                 check_date(r["lastmod"], "lastmodificationdate of directory sub", None, None, exact=float(mt["R/sub"]))
+            # flatten the history under a different zone: the packing list's dates must still denote the same instants
+            if scn.get("flatten_tz"):
+                os.environ["TZ"] = scn["flatten_tz"]
+                time.tzset()
+                cur = {"name": scn["flatten_tz"], "iana": "/" in scn["flatten_tz"]}
+                f0 = time.time()
+                fres = w.flatten("R", "_flat/out")
+                f1 = time.time()
+                require(fres.exc is None and fres.exit_code == 0, "flatten", fres.brief(), fres)
+                import glob as _glob
+
+                from .. import refxml as _refxml
+
+                pls = _glob.glob(os.path.join(w.abs("_flat/out"), "*", "packinglist_*.mhl"))
+                require(len(pls) == 1, "flatten", "packing lists: %r" % pls, fres)
+                pdoc = _refxml.read_manifest(pls[0])
+                res = fres
+                orig = {r["path"]: r for r in doc["records"] if r["kind"] == "file"}
+                for r in pdoc["records"]:
+                    o = orig.get(r["path"])
+                    require(o is not None, "flatten-record", "packing list has %r which the history has not" % r["path"], fres)
+                    require(r["size"] == o["size"], "flatten-size", "%r: size %r in the packing list, %r in the history" % (r["path"], r["size"], o["size"]), fres)
+                    if r["lastmod"] is not None:
+                        exact = float(int(mt["R/" + r["path"]] // 1))
+                        check_date(r["lastmod"], "flattened lastmodificationdate of %r" % r["path"], None, None, exact=exact)
+                    oe = {e["fmt"]: e for e in o["entries"]}
+                    for e in r["entries"]:
+                        require(DT_RE.match(e["hashdate"] or "") is not None, "lexical", "flattened hashdate %r" % e["hashdate"], fres)
+                        require(_parse(e["hashdate"]).timestamp() == _parse(oe[e["fmt"]]["hashdate"]).timestamp(), "flatten-instant",
+                                "%r %s: hash date %s in the history became %s in the packing list (TZ %s -> %s)" % (r["path"], e["fmt"], oe[e["fmt"]]["hashdate"], e["hashdate"], tz, scn["flatten_tz"]), fres)
+                        check_date(e["hashdate"], "flattened hashdate of %r" % r["path"], t0 - 0.001, t1)
+                check_date(pdoc["creatorinfo"].get("creationdate"), "flatten creationdate", int(f0), f1)
+                ctx.event("flatten_other_zone")
+                os.environ["TZ"] = tz
+                time.tzset()
+                cur = {"name": tz, "iana": tzspec["kind"] == "iana"}
             m = NAME_RE.match(os.path.basename(mp))
             require(m is not None, "name", "manifest name %r" % mp, res)
             ts = datetime.datetime.strptime(m.group(1), "%Y-%m-%d_%H%M%S").replace(tzinfo=datetime.timezone.utc).timestamp()
@@ -256,6 +340,6 @@ def run_case(scn, ctx):
             ctx.event("size0")
         if any(f["size"] >= 1 << 20 for f in scn["files"]):
             ctx.event("big_file")
-        ctx.event({"fixed": "fixed_offset", "iana": "iana", "custom": "custom_rule", "utc": "utc"}[tzspec["kind"]])
+        ctx.event({"fixed": "fixed_offset", "iana": "iana", "custom": "custom_rule", "utc": "utc", "custom_now": "now_right_after_switch"}[tzspec["kind"]])
         ctx.mark_nontrivial(("now_dst/file_std" in sides or "now_std/file_dst" in sides) or any(f["size"] == 0 for f in scn["files"]) or tzspec["kind"] != "utc")
         return w.trace + [["TZ", tz]]
